@@ -187,7 +187,7 @@ func TestC12(t *testing.T) {
 	rapid.Check(t, func(rt *rapid.T) {
 		c := genHostileCase(rt)
 		done := pbt.Inflight("C12", "hostile", c)
-		st, err := runHostile(c)
+		st, err := pbt.Safe(runHostile, c)
 		done()
 		if st == nil {
 			st = &hostileStats{}
